@@ -85,13 +85,15 @@ pub fn run(types: &str, input: &str, output: &str) -> Value {
                         Err(er) => json!(format!("{er:?}").split(|ch: char| !ch.is_alphanumeric()).next().unwrap_or("")),
                     };
                     let mut oks = vec![];
+                    let mut ckey = String::new();
                     for p in 0..=(len + 1) {
                         if let Ok(ne) = create(&target, name, Some(base + p), ver, &mut counter) {
                             oks.push(p);
+                            ckey = crate::types::type_key(ne.element_type());
                             let _ = target.remove_sub_element(ne);
                         }
                     }
-                    obs.insert(nm.to_string(), json!({"range": range, "ok": oks}));
+                    obs.insert(nm.to_string(), json!({"range": range, "ok": oks, "ckey": ckey}));
                 }
             }
         }
